@@ -218,7 +218,7 @@ func genRoot(rt *rapid.T, b *built) typeref.Param {
 
 type revalInfo struct {
 	nested, toInvalid, toValid, shape bool
-	labels                           []string
+	labels                            []string
 }
 
 func genReval(rt *rapid.T) (RevalCase, revalInfo) {
